@@ -25,7 +25,7 @@ RULE = ("grammar-aware fault enumeration (full product of per-field alphabets, n
         "inner packet with bad padding, misaligned, filler); plus raw filler of lengths 1..40. Each crafted reply is sent "
         "for every request of the phase and driven through LAN.send, LAN.authenticate, Device._send_command and "
         "AirConditioner.refresh; the same alphabets are also injected UNSOLICITED between two exchanges (idle phase), after the "
-        "handshake, and as the answer to the IMPLICIT re-handshake of an operation that follows a lost connection or an expired authentication. Outcome must be frames / ProtocolError family / TimeoutError; device-level calls never raise. "
+        "handshake, as bursts of 300 / 3000 minimal packets of each type, and as the answer to the IMPLICIT re-handshake of an operation that follows a lost connection or an expired authentication. Outcome must be frames / ProtocolError family / TimeoutError; device-level calls never raise. "
         "A case is (protocol, phase, field values, driver); all non-trivial")
 ASSUMPTIONS = ["the crafted reply is repeated for every retransmission", "frames carried by 'valid' bodies are well-formed state reports"]
 IP, PORT = "10.0.0.3", 6444
@@ -60,6 +60,7 @@ def shards(tier):
     out += [("v3idle", 0, t) for t in range(16)]
     out += [("v3re", 0, t) for t in range(16)]
     out += [("v2idle", m, 0) for m in range(len(V2_MARKERS))]
+    out += [("flood", t, 0) for t in range(0, 16, 4)]
     return out
 
 
@@ -365,6 +366,25 @@ def run_shard(shard, tier) -> Stats:
                 res = execute(3, "rehandshake", crafter, driver)
                 oc = judge(st, case, driver, res[0], res[2], f"v3 implicit re-handshake type={ptype} body={body}")
                 st.ev(("v3re", b, pad, magic, size, body, driver), f"{driver}:{oc}", True)
+    elif kind == "flood":
+        # thousands of minimal packets of one type in a single burst (count, not content, is the stress)
+        for ptype in range(a, a + 4):
+            for count in (300, 3000):
+                for shape in ("empty", "tagged"):
+                    def crafter(req, ptype=ptype, count=count, shape=shape):
+                        if shape == "empty":
+                            one = rc.v3_header(0, 0, ptype) + b"\x00\x00"
+                        else:
+                            hdr = rc.v3_header(30, 0, ptype)
+                            one = hdr + hashlib.sha256(hdr).digest()
+                        return one * count
+                    for phase, drivers in (("data", ["send", "refresh", "send-then-send"]), ("handshake", ["authenticate", "refresh"]),
+                                           ("idle", IDLE_DRIVERS), ("rehandshake", ["refresh-reauth"])):
+                        for driver in drivers:
+                            case = {"proto": 3, "phase": phase, "flood": count, "type": ptype, "shape": shape, "driver": driver}
+                            res = execute(3, phase, crafter, driver)
+                            oc = judge(st, case, driver, res[0], res[2], f"v3 burst of {count} packets type={ptype} phase={phase}")
+                            st.ev(("flood", ptype, count, shape, phase, driver), f"{driver}:{oc}", True)
     elif kind == "v2idle":
         marker = V2_MARKERS[a]
         for lf, cipher, sig, trunc in product(V2_LENGTHS, V2_CIPHER, V2_SIGS, (None, 6, "n-1")):
@@ -391,6 +411,8 @@ def run_shard(shard, tier) -> Stats:
 
 def replay(case):
     st = Stats()
+    if "flood" in case:
+        return sorted(run_shard(("flood", case["type"] - case["type"] % 4, 0), "quick").viol_counts)
     if "raw" in case:
         raw = bytes.fromhex(case["raw"])
         res = execute(case["proto"], case["phase"], lambda req: raw, case["driver"])
